@@ -79,6 +79,8 @@ func main() {
 	case "conc-stress":
 		// free-running accessors against appends, merges, identity changes (use with `go run -race`)
 		stats = map[string]int{"Ops": stressOps(*seed, time.Duration(*n)*time.Millisecond)}
+	case "crash":
+		stats = runCrash(*seed, *n, out, *thorough)
 	case "order":
 		stats = runOrder(*seed, *n, out, *thorough)
 	default:
